@@ -34,7 +34,7 @@ ASSUMPTIONS = [
   "optimality is judged through the cost gap to the float64 optimum of MJWarp's own rows, scaled by meaninertia*max(1,nv) "
   "like the solver's tolerance test; allowance K*tolerance (K=30 Newton, 1000 CG: CG stops on 'improvement<tolerance', "
   "MuJoCo's CG at the same tolerance leaves gaps of the same size) + the float32 gradient-evaluation floor",
-  "MuJoCo comparison only under the gating rule (same row counts, contacts matched to 2e-5 in position/distance and 2e-4 "
+  "MuJoCo comparison only under the gating rule (same row counts, contacts matched to 2e-5 in position/distance and 5e-5 "
   "in frame, no MuJoCo warning, structure stable under the +-2ulp probe); allowance K*tolerance + 50^2 * measured gap of "
   "MuJoCo's own optimum under the probe (a gap is quadratic in the perturbation)",
   "rows with an identically zero Jacobian are left out of the cost (constants up to 1e17 with D=1/mjMINVAL); worlds with a "
@@ -48,7 +48,8 @@ K_TOL = {"Newton": 30.0, "CG": 1000.0}
 C_FORCE = 64.0  # float32 allowance (in eps32 * magnitude of the terms summed) for efc.force
 C_GRADNOISE = 8.0  # float32 gradient-evaluation floor multiplier (enters the gap squared)
 GATE_POS = 2e-5  # contact position / distance agreement required for the MuJoCo certificate
-GATE_FRAME = 2e-4
+GATE_FRAME = 5e-5
+ROW_REL = 5e-5  # float32-level row differences tolerated by the MuJoCo certificate (C05 judges the rows themselves)
 SMOOTH_REL = 1e-4  # float32 evaluation allowance for qfrc_smooth / M qacc inside the MuJoCo certificate
 
 BASE = dict(
@@ -258,6 +259,20 @@ def mujoco_reference(mjm, st, seed):
     smooth_floor = 0.5 * float(eg @ np.linalg.solve(H, eg)) / Pj["scale"]
   except np.linalg.LinAlgError:
     return None, "ungated:singular_hessian"
+  # float32-level differences between the two engines' rows (what C05 allows: 5e-5 relative in J and aref, 2e-4 in D) move
+  # the optimum; with forces of 1e6 a 3e-5 difference of a contact normal is a gradient difference of 1e2. Convert the
+  # allowed row differences into a gradient difference at MuJoCo's optimum and then into a cost gap.
+  if Pj["n"]:
+    aJ = np.abs(Pj["J"])
+    rs = np.maximum(1.0, aJ.max(axis=1))
+    djar = ROW_REL * rs * float(np.abs(Pj["qacc"]).sum()) + ROW_REL * np.maximum(1.0, np.abs(Pj["aref"]))
+    live = ((jj - djar) < 0) | (Pj["type"] <= E.T_FTEN) | (fj != 0)
+    df = (Pj["D"] * djar + 4 * ROW_REL * Pj["D"] * np.abs(jj)) * live * ~Pj["inert"]
+    dg = aJ.T @ df + ((aJ > 0) * (ROW_REL * rs)[:, None]).T @ np.abs(fj)
+    try:
+      smooth_floor += 0.5 * float(dg @ np.linalg.solve(H, dg)) / Pj["scale"]
+    except np.linalg.LinAlgError:
+      return None, "ungated:singular_hessian"
   return {"Pj": Pj, "cstar": cstar, "noise": max(noise, 0.0), "lawerr": lerr, "con": E.mj_contacts(mj), "smooth_floor": smooth_floor}, "ok"
 
 
